@@ -103,7 +103,7 @@ Fixpoint calls_eqb (a b : list (Z * call)) : bool :=
 (* frames whose id VarInt is longer than one byte are mis-framed by receive_packet (it reads
    `length - 1` body bytes): a byte-level effect, covered by M2 / C08 *)
 Definition multibyte_id (c : conn_case) : bool :=
-  existsb (fun x => match snd x with IFrame id _ => (id <? 0) || (127 <? id) | IEof => false end) (cc_inbox c).
+  existsb (fun x => match snd x with IFrame id _ => (id <? 0) || (127 <? id) | _ => false end) (cc_inbox c).
 
 Definition corr_conn (c : conn_case) : Z :=
   if Z.testbit (cc_flags c) 0 then 4 else
@@ -287,3 +287,51 @@ Definition check_c10_pair (p : pair_case) : Z :=
        | None, Some flag => flag           (* nothing stored: nothing to present *)
        | _, None => true                   (* the second connection ended before the request *)
        end).
+
+(* ---- C07 on the implementation's observation: keep-alive sends (with their times),
+   the frames the client sent (arrival times), the timeout localisation call and the end ---- *)
+From Passage Require Import Conn.KeepAlive.
+
+Fixpoint merge_timed (a b : trace) (fuel : nat) : trace :=
+  match fuel with
+  | O => a ++ b
+  | S f =>
+      match a, b with
+      | [], _ => b
+      | _, [] => a
+      | (ta, ea) :: a', (tb, eb) :: b' =>
+          if ta <=? tb then (ta, ea) :: merge_timed a' b f else (tb, eb) :: merge_timed a b' f
+      end
+  end.
+
+Definition obs_c07 (c : conn_case) : bool :=
+  let status := intent_of c =? 0 in
+  (* time of Login Success *)
+  match find (fun x => match x with (_, id, _) => id =? 2 end) (cc_sent c) with
+  | None => true
+  | Some (ts, _, _) =>
+      if status then true else
+      match find (fun x => match x with (t, IFrame id _) => (ts <=? t) && (id =? 3) | _ => false end) (cc_inbox c) with
+      | None => true
+      | Some (tack, _) =>
+          let frames := map (fun x => match x with
+                                      | (t, IFrame id b) => (t, TRecv id b)
+                                      | (t, _) => (t, TTick) end)
+                            (filter (fun x => tack <? fst x) (cc_inbox c)) in
+          let sends := map (fun x => match x with (t, id, body) =>
+                              let p := cb_packet false true id in
+                              match dec vi vl (rkinds p) body with
+                              | Ok vs _ => (t, TSend p vs) | _ => (t, TSend unknown_packet []) end end)
+                           (filter (fun x => match x with (t, _, _) => tack <=? t end)
+                                   (filter (fun x => match x with (_, id, _) => negb (id =? 2) || false end) (cc_sent c))) in
+          let sends := filter (fun x => match snd x with TSend p _ => negb (is_pkt p login_cb_LoginSuccessPacket) | _ => true end) sends in
+          let calls := map (fun x => (fst x, TCall (snd x))) (filter (fun x => tack <=? fst x) (cc_calls c)) in
+          let n := (length frames + length sends + length calls + 2)%nat in
+          let tr := merge_timed (merge_timed frames calls n) sends (2 * n) ++ [(cc_end c, TEnd (cc_outcome c))] in
+          match c07_run (tack, None) tr with Some _ => true | None => false end
+      end
+  end.
+
+Definition check_c07 (c : conn_case) : Z :=
+  let k := corr_conn c in
+  if k =? 4 then 4 else k + moni (obs_c07 c && negb (outcome_eqb (cc_outcome c) (OErr KPanic))).
